@@ -395,8 +395,9 @@ func (x *FnExec) eval(fr *frame, e Expr, c *evalCtx) (Val, error) {
 			return Val{S: fmt.Sprintf("(forall (%s) %s)", strings.Join(binders, " "), b), T: types.Typ[types.Bool]}, nil
 		}
 		b = and(g, b)
-		// same rewriting for an existential (as a goal it is refuted as a universal, which needs the same trigger)
-		if len(e.Vars) == 1 && x.q.mode != ModeBV && os.Getenv("TVC_NO_AUTOPAT") == "" && extra[e.Vars[0].Name].Sort == x.q.intSort() {
+		// same rewriting for an existential (as a goal it is refuted as a universal, which needs the same trigger) — only in
+		// functions whose contract asks for it (`expat`): elsewhere the extra trigger made proofs that went through slower
+		if len(e.Vars) == 1 && x.q.mode != ModeBV && os.Getenv("TVC_NO_AUTOPAT") == "" && x.topSpec != nil && x.topSpec.ExPat && extra[e.Vars[0].Name].Sort == x.q.intSort() {
 			sym := extra[e.Vars[0].Name].S
 			slices := map[string]bool{}
 			for _, u := range uses {
@@ -433,6 +434,8 @@ func (x *FnExec) eval(fr *frame, e Expr, c *evalCtx) (Val, error) {
 							ps += " :pattern (" + pt + ")"
 						}
 					}
+					// both forms (they are equivalent): the plain one keeps what the solvers found before, the positional one
+					// adds the trigger
 					return Val{S: fmt.Sprintf("(exists ((%s %s)) (! %s%s))", j, x.q.intSort(), and(g2, body2.S), ps), T: types.Typ[types.Bool]}, nil
 				}
 			}
